@@ -111,8 +111,8 @@ def run(ctx):
             for c in used:
                 calls += ctor_calls(c, univ[c])
             pre = len(calls)
-            for e in b:
-                calls.append({"op": "register" if e["op"] == "reg" else "unregister", "reg": "r", "obj": e["c"]})
+            for k, e in enumerate(b):
+                calls.append({"op": "register" if e["op"] == "reg" else "unregister", "reg": "r", "obj": e["c"], "reversed": (k + i) % 2 == 1})
                 calls.append({"op": "gather", "reg": "r"})
             jobs.append({"id": i, "calls": calls, "pre": pre})
         res = run_api(ctx, exe, [{"id": j["id"], "calls": j["calls"]} for j in jobs], "replay%d" % off)
@@ -162,7 +162,7 @@ def run(ctx):
             c = rnd.choice(cids)
             op = "reg" if rnd.random() < 0.6 else "unreg"
             plan.append((op, c))
-            calls.append({"op": "register" if op == "reg" else "unregister", "reg": "r", "obj": c})
+            calls.append({"op": "register" if op == "reg" else "unregister", "reg": "r", "obj": c, "reversed": (len(calls) // 2) % 2 == 1})
             calls.append({"op": "gather", "reg": "r"})
         tjobs.append({"id": i, "calls": calls})
         plans.append((pre, plan))
@@ -295,7 +295,7 @@ def replay(path):
         pre = len(calls)
         plan = rp["plan"] + [[rp["events"][-1]["op"], rp["events"][-1]["c"]]]
         for op, c in plan:
-            calls.append({"op": "register" if op == "reg" else "unregister", "reg": "r", "obj": c})
+            calls.append({"op": "register" if op == "reg" else "unregister", "reg": "r", "obj": c, "reversed": (len(calls) // 2) % 2 == 1})
             calls.append({"op": "gather", "reg": "r"})
         rs = run_api(ctx, exe, [{"id": 0, "calls": calls}], "replay")[0]
         evs = [{"op": "new", "c": "-", "res": "Ok", "ids": []}]
